@@ -14,6 +14,7 @@ import (
 	_ "verif/checks/c09"
 	_ "verif/checks/c10"
 	_ "verif/checks/c11"
+	_ "verif/checks/c12"
 	_ "verif/checks/c14"
 	_ "verif/checks/c15"
 	_ "verif/checks/c17"
